@@ -20,8 +20,9 @@ monoclinic threshold) are counted, not compared.
 
 On a disagreement `failing_inputs` puts the disagreeing crystal-driven cases through the real pipeline and the verified Lean
 oracles (`mds`, checkC12 / checkC13) exactly as checks/magpipe.py does; a case whose oracle verdict is false is a failing
-input.  When there is none the caller reports the broken correspondence with `no_input=True` (checks/magpipe.py does that
-for `stage_bad`).
+input (returned in `stats["failing_inputs_<pid>"]` with its `mds` case line, and appended to the list of disagreements).
+When there is none the caller reports the broken correspondence with `no_input=True` (checks/magpipe.py does that for
+`stage_bad` after its own exploration with the same oracles found nothing: `VIOLATION … no-failing-input-found`).
 """
 import collections
 import os
@@ -259,7 +260,8 @@ def run_stages(kinds, tier, seed, key):
         bad = bad + bad2
         stats.update(stats2)
         if bad2:
-            # the disagreeing inputs themselves go through the property's oracle first (DESIGN 2.5 step 3)
+            # the disagreeing inputs themselves go through the property's oracle first (DESIGN 2.5 step 3); a hit is a
+            # failing input: `stats["failing_inputs_<pid>"]` carries tag, failed clauses and the `mds` case line (replay)
             pids = [p for p, k in (("C12", "s5m"), ("C13", "s6m")) if k in own]
             for pid in pids:
                 try:
@@ -268,6 +270,8 @@ def run_stages(kinds, tier, seed, key):
                     hits = []
                     stats[f"failing_input_search_error_{pid}"] = str(ex)[:200]
                 stats[f"failing_inputs_found_{pid}"] = len(hits)
+                if hits:
+                    stats[f"failing_inputs_{pid}"] = [{"tag": t, "clauses": " || ".join(m)[:600], "case": l} for t, l, m in hits[:5]]
                 for tag, _, mine in hits[:5]:
                     bad.append((f"mds {tag}", f"oracle verdict on the disagreeing input: {' || '.join(mine)[:300]}"))
     STATS.clear()
